@@ -63,6 +63,15 @@ def handleHB (payload : String) : String :=
     | some (mm, sc) => s!"M {fmtOptNatList ((List.range I.ny).map mm.get)} {sc}"
   | none => "bad"
 
+/-- `HO`: the optimum, as the score of the (proved optimal) model of the unchanged routine -/
+def handleHO (payload : String) : String :=
+  match parseHung payload with
+  | some (I, _) =>
+    match H2.run I with
+    | none => "opt=none"
+    | some (_, sc) => s!"opt={sc}"
+  | none => "bad"
+
 /-- `HS`: evaluate the C07 specification on the implementation's answer (`…|matching|score`):
     `perfect=<b> weight=<w> scoreok=<b> admits=<b>` -/
 def handleHS (payload : String) : String :=
@@ -765,6 +774,7 @@ def dispatch (line : String) : String :=
     match tag with
     | "H" => handleH payload
     | "HB" => handleHB payload
+    | "HO" => handleHO payload
     | "HS" => handleHS payload
     | "N" => handleN payload
     | "A" => handleA payload
